@@ -134,9 +134,10 @@ class C6:
                             self.tparams[cb.did].add(pl)
                             changed = True
 
-    def sanitised(self, e, b, bi):
-        """a dominating guard bounds the tainted value (or the operand) by an expression that carries no user-reported integer"""
-        ctx = Ctx(b, bi, self.facts)
+    def sanitised(self, e, b, bi, ctx_body=None):
+        """a dominating guard bounds the tainted value (or the operand) by an expression that carries no user-reported integer;
+        ctx_body = an inlined view of `b` (same block numbering for b's own blocks) whose guards are used instead"""
+        ctx = Ctx(ctx_body or b, bi, self.facts)
         cands = [canon(uncast(e))] + [canon(x) for x in self.tainted_subexprs(e, b)]
         # operands derived arithmetically from a tainted param: also try the containing additive terms
         for x in walk(e):
@@ -177,6 +178,14 @@ def run(facts):
             cnt[k0] = c + 1
             key = k0 + ("#%d" % c if c else "")
             s = c6.sanitised(e, b, bi)
+            if not s and b.kind in ("fn", "assoc_fn"):
+                # the guard may have moved into a helper (a classifier fn, a bool-returning predicate): judge the inlined views
+                from .inline import views
+                for ib in views(facts, b):
+                    s = c6.sanitised(e, b, bi, ctx_body=ib)
+                    if s:
+                        s += " (with helpers inlined)"
+                        break
             src = ", ".join(sorted(set(fmt_expr(x)[:50] for x in ts)))
             if s:
                 res.ok(key, b.loc(bi), "user-reported integer (%s) reaches %s only under %s" % (src, kind, s), nontrivial=True)
